@@ -297,7 +297,7 @@ pub fn scenarios(thorough: bool) -> Vec<MatchScenario> {
 pub fn check(rep: &Reporter) {
 	let thorough = rep.tier.thorough();
 	rep.set_rule(
-		"front-end histories of 2–3 concurrent operations out of {request, subscribe, batch of 2, notification} × answer pattern per wire message {ok, error object, omitted, delivered twice} × extra server messages {none, method + unknown-subscription notifications, response with a never-sent id, array packing two single responses} × id kind {number, string}; every front-end start and every delivery is a scheduling point, so all permutations of answers and all interleavings with late-starting calls are schedules of the DFS; complete tree when ≤ cap executions, else all schedules with ≤ K deviations. Oracle: the value each future returns is the payload of the delivered message whose id equals the id found in that call's own wire bytes.",
+		"front-end histories of 2–3 concurrent operations out of {request, subscribe, batch of 2, notification} × answer pattern per wire message {ok, error object, omitted, delivered twice} × extra server messages {none, method + unknown-subscription notifications, response with a never-sent id, array packing two single responses} × id kind {number, string}; every front-end start and every delivery is a scheduling point, so all permutations of answers and all interleavings with late-starting calls are schedules of the DFS; complete tree when ≤ cap executions, else all schedules with ≤ K deviations. plus (c) a transport whose receive() is not cancellation safe (one more await after taking the message) while the read task's inactivity timer ticks every 1–3 virtual ms, and (d) batches whose ids start at 8/9 (thorough 7–10, 98, 99) after a warm-up, both id kinds. Oracle: the value each future returns is the payload of the delivered message whose id equals the id found in that call's own wire bytes.",
 	);
 	rep.assume("answers are tagged with the index of the wire message they answer, so 'own response' is decidable from bytes alone");
 	let scen = scenarios(thorough);
